@@ -40,7 +40,7 @@ Take(op) ==
   CASE op.k = "delete" -> id \in TargetIds /\ DeleteS(id)
     [] op.k = "replace_with" -> id \in TargetIds /\ op.ms \in Material /\ ReplaceWithS(id, op.ms)
     [] op.k = "replace" -> pid \in ReplaceHosts /\ id \in ChildrenOfP(pid) /\ op.ms \in Material /\ ReplaceS(pid, id, op.ms)
-    [] op.k = "remove" -> pid \in ParentIds /\ id \in BodyChildren(pid) /\ RemoveS(pid, id)
+    [] op.k = "remove" -> pid \in ReplaceHosts /\ id \in ChildrenOfP(pid) /\ RemoveS(pid, id)
     [] op.k = "insert" -> pid \in ParentIds /\ op.ms \in Material /\ InsertIdxOK(pid, op.i, op.ms) /\ InsertS(pid, op.i, op.ms)
     [] op.k = "append" -> pid \in ParentIds /\ op.ms \in Material /\ AppendS(pid, op.ms)
     [] op.k = "rename" -> RenameOK(id) /\ op.nm \in NewNames /\ RenameS(id, op.nm)
